@@ -50,8 +50,12 @@ CHECKS["C01"] = dict(
           "every truncation and every single (and, for a quarter, pairwise) length-octet overwrite enumerated per frame; rapid-drawn "
           "truncations, length-octet overwrites, bit flips, insert/delete, splices, trailing garbage, raw bodies, generated DIB lists "
           "with disagreeing lengths; fed to knxnet.Unpack, cemi.Unpack and every exported Unpack method. Each input is decoded in "
-          "four buffer contexts (exact capacity; prefix of a 0x00-, 0xFF- and remnant-filled larger buffer). Non-trivial = input that is "
-          "not an unmodified valid encoding and (for knxnet.Unpack) has a valid header with a known service id; distinct by (target, bytes)."),
+          "four buffer contexts (exact capacity; prefix of a 0x00-, 0xFF- and remnant-filled larger buffer). Receiver histories (job sock): "
+          "sequences of 1..40 well-formed and malformed datagrams / TCP units (malformed body under a consistent header; a final unit with "
+          "broken framing: total length 0..5, bad header octets, lying length, partial header) pushed through live DialTunnelUDP / "
+          "DialTunnelTCP sockets on loopback. Non-trivial = input that is "
+          "not an unmodified valid encoding and (for knxnet.Unpack) has a valid header with a known service id, or a receiver sequence "
+          "containing a malformed item; distinct by (target, bytes) / plan."),
     level_text=("Generated-input search with a four-way differential oracle (no panic, no hang by watchdog, n <= len, outcome "
                 "independent of bytes beyond the input) plus live-socket receiver histories; exhaustive per frame on truncations "
                 "and length-octet overwrites, sampled elsewhere; native coverage-guided fuzzing in the thorough tier."),
@@ -59,6 +63,7 @@ CHECKS["C01"] = dict(
     technique="rapid constructive mutation + exhaustive truncation/length sweeps + go native fuzzing, four-way buffer differential oracle; live UDP/TCP receiver histories with markers",
     assumptions=["a hang is declared when one synchronous decode call has not returned after 4 s"],
     jobs=[dict(name="pure", pkg="./pure", go=GO, test="TestC01", shards=(4, 16), checks=(30000, 400000), scale=(1, 4), timeout=(300, 3000)),
+          dict(name="sock", pkg="./sock", go=GO, test="TestC01Sock", shards=(2, 8), checks=(150, 2500), timeout=(600, 3000)),
           dict(name="fuzz-knxnet", kind="fuzz", pkg="./pure", go=GO, target="FuzzKnxnetUnpack", fuzztime=90),
           dict(name="fuzz-cemi", kind="fuzz", pkg="./pure", go=GO, target="FuzzCemiUnpack", fuzztime=60)],
 )
